@@ -13,7 +13,7 @@ RULE = ('every atom text of length <= 3 [thorough: 4] over the 21 characters {a 
         'the lexer requires it, also quoted when it does not), and every term of depth <= 2 over {6 atom texts, 0 7 123, '
         'f/1, g/2, zero-argument compounds f() and a quoted one, [] [t] [t,u] [t|V] [t,u|V], _, named variables} - and pairs of literals that print alike (a compound or list next to the quoted atom spelling it) - each literal compiled as a fact argument, as a head '
         'argument of a rule, and as a body-goal argument, each batch also compiled from a file holding the same text (identical code required), then (1) read back through a query: structure equals the '
-        'literal\'s term and to_python equals the reference value (name / int / list / (name,[args]) / None) - every returned value is then changed in place by the caller (all lists inside appended to), which no later conversion on the same engine may show; (2) the '
+        'literal\'s term and to_python equals the reference value (name / int / list / (name,[args]) / None) - every returned value is then changed in place by the caller (all lists inside appended to), which no later conversion on the same engine may show; (every check also on an engine that was used and cleared before the program was loaded) (2) the '
         'same term built with atom/functor/listpair/makelist through the API is used as query argument: exactly one '
         'answer, and the compiled literal read back unifies with it; (3) atoms: yp.atom(n) is yp.atom(n); atoms and whole terms built on two '
         'engines unify with each other and with each other\'s compiled literals and dynamic facts, also on an engine that was cleared before loading; (4) every _ is a distinct variable. states = distinct (literal class, '
@@ -180,6 +180,11 @@ def check_batch(batch):
     ypc.load_script_from_string(py, fn=impl.SCRIPT_FN)
     for j, (idx, cls, term, text) in enumerate(batch):
         r = check_literal(yp, yp2, j, cls, term, text)
+        if r[0] == 'ok':
+            # the same on the engine that was used and cleared before the program was loaded
+            rc = check_literal(ypc, yp2, j, cls, term, text)
+            if rc[0] != 'ok':
+                r = (rc[0], 'after-clear:' + rc[1], 'on an engine that was cleared before the program was loaded: ' + rc[2]) + tuple(rc[3:])
         if r[0] == 'ok':
             r2 = check_cross(yp, yp2, ypc, j, term, text)
             if r2 is not None:
